@@ -6,6 +6,7 @@ CONSTANTS
   MaxCalls = 2
   MaxRoutes = 1
   MaxHosts = 0
+  MaxCorsCalls = 1
   FullApi = TRUE
   ReqMethods = {"GET", "POST", "OPTIONS"}
   ReqHosts = {""}
